@@ -138,15 +138,24 @@ def _build_condition(
     # is_null / is_not_null for that. A NULL in the value set therefore matches
     # nothing and is dropped, and every result is explicitly restricted to
     # non-null rows.
-    def _in_condition() -> pc.Expression:
+    def _value_set() -> List[Any]:
         values = [v for v in expr.value if v is not None]
+        # pyarrow's is_in matches floats by identity, not by ==: a -0.0 row is
+        # not "in" [0.0] although -0.0 == 0.0 (and the == operator matches it).
+        # Whenever a float zero is listed, list both zeros.
+        if any(isinstance(v, float) and v == 0.0 for v in values):
+            values = values + [0.0, -0.0]
+        return values
+
+    def _in_condition() -> pc.Expression:
+        values = _value_set()
         if not values:
             # IN () matches nothing (SQL semantics)
             return pc.scalar(False)
         return pc.is_in(field, value_set=pa.array(values)) & field.is_valid()
 
     def _not_in_condition() -> pc.Expression:
-        values = [v for v in expr.value if v is not None]
+        values = _value_set()
         if not values:
             # NOT IN () matches every non-null row
             return field.is_valid()
